@@ -959,8 +959,32 @@ func c05Verbatim(r *core.Run, root []*ssa.Function) {
 				if !isByteSlice(a.Type()) {
 					continue
 				}
+				// a helper that answers with the static bytes of a predefined error: every caller hands
+				// in a package-level error value (then the literal's code is judged by E2)
+				predefined := len(p.CallersOf(fn)) > 0
+				eidx := -1
+				for i, prm := range fn.Params {
+					if prm == eprm {
+						eidx = i
+					}
+				}
+				for _, cs := range p.CallersOf(fn) {
+					if eidx < 0 || eidx >= len(cs.Common().Args) {
+						predefined = false
+						continue
+					}
+					if _, isG := loadedGlobal(cs.Common().Args[eidx]); !isG {
+						predefined = false
+					}
+				}
 				for k, s := range sources(a, nil, nil, 0) {
 					key := fmt.Sprintf("payload#%d:%s", k, valDesc(s.v))
+					if _, isPrm := core.Strip(s.v).(*ssa.Parameter); isPrm || func() bool { _, g := loadedGlobal(s.v); return g }() {
+						if predefined {
+							r.OK("E3", core.FuncName(fn), key, p.InstrPos(c), "static bytes sent for a predefined package-level error only (every caller passes a package-level error value)")
+							continue
+						}
+					}
 					if m := marshalOf(s.v); m != nil {
 						r.Check(holds(m.Call.Args[0]), "E3", core.FuncName(fn), key, p.InstrPos(c), "the payload encodes the *Error handed in", "the error payload is marshalled from a value that does not hold the *Error handed in")
 						continue
